@@ -239,6 +239,50 @@ theorem C01_actions {ds : Nat → Decl} {acc : EG × Subst} {U R} (i : Inv ds ac
   | delete f args => exact absurd hnd (by simp [NoDelete])
   | panic => exact i.err
 
+/-- **Every action list without `delete`** (a rule head for one match, or a top-level command;
+a failing action halts the rest of the list) **preserves the invariant**; the history only grows. -/
+theorem C01_action_list {ds : Nat → Decl} : ∀ (as : List Action) (acc : EG × Subst) {U R},
+    (∀ a ∈ as, NoDelete a) → Inv ds acc.1 U R →
+    ∃ U' R', Inv ds (runActionsFrom acc as) U' R' ∧ (∀ p, p ∈ U → p ∈ U') ∧ (∀ r, r ∈ R → r ∈ R') := by
+  intro as
+  induction as with
+  | nil => intro acc U R _ i; exact ⟨U, R, i, fun _ h => h, fun _ h => h⟩
+  | cons a as ih =>
+    intro acc U R hnd i
+    have i1 := C01_actions i a (hnd a List.mem_cons_self)
+    simp only [runActionsFrom]
+    split
+    · exact ⟨_, _, i1, fun _ h => List.mem_append_right _ h, fun _ h => List.mem_append_right _ h⟩
+    · obtain ⟨U', R', i2, hu, hr⟩ := ih (runAction acc a) (fun b hb => hnd b (List.mem_cons_of_mem _ hb)) i1
+      exact ⟨U', R', i2, fun p h => hu p (List.mem_append_right _ h), fun r h => hr r (List.mem_append_right _ h)⟩
+
+/-- **One iteration of any ruleset whose heads contain no `delete`**: whatever matches were found
+and in whatever order their heads ran, the state after the iteration satisfies the invariant for
+a history extending the old one — so (`C01_exact`) its equalities are exactly the congruence
+closure of everything asserted so far, rule-derived unions and rows included. -/
+theorem C01_stepRules {ds : Nat → Decl} (fuel : Nat) (g : EG) (rules : List Rule) {U R}
+    (hnd : ∀ r ∈ rules, ∀ a ∈ r.head, NoDelete a) (i : Inv ds g U R) :
+    ∃ U' R', Inv ds (stepRules fuel g rules).1 U' R' ∧ (∀ p, p ∈ U → p ∈ U') ∧ (∀ r, r ∈ R → r ∈ R') := by
+  have key : ∀ (work : List (Subst × List Action)) (g : EG) {U R}, (∀ w ∈ work, ∀ a ∈ w.2, NoDelete a) → Inv ds g U R →
+      ∃ U' R', Inv ds (work.foldl (fun g (sh : Subst × List Action) => runActions g sh.1 sh.2) g) U' R' ∧
+        (∀ p, p ∈ U → p ∈ U') ∧ (∀ r, r ∈ R → r ∈ R') := by
+    intro work
+    induction work with
+    | nil => intro g U R _ i; exact ⟨U, R, i, fun _ h => h, fun _ h => h⟩
+    | cons w ws ih =>
+      intro g U R hw i
+      simp only [List.foldl_cons]
+      obtain ⟨U1, R1, i1, hu1, hr1⟩ := C01_action_list w.2 (g, w.1) (hw w List.mem_cons_self) i
+      obtain ⟨U2, R2, i2, hu2, hr2⟩ := ih (runActions g w.1 w.2) (fun x hx => hw x (List.mem_cons_of_mem _ hx)) i1
+      exact ⟨U2, R2, i2, fun p h => hu2 p (hu1 p h), fun r h => hr2 r (hr1 r h)⟩
+  have hwork : ∀ w ∈ (rules.flatMap fun r => (matchAll g false r.body).map fun s => (s, r.head)), ∀ a ∈ w.2, NoDelete a := by
+    intro w hw a ha
+    simp only [List.mem_flatMap, List.mem_map] at hw
+    obtain ⟨r, hr, s, _, rfl⟩ := hw
+    exact hnd r hr a ha
+  obtain ⟨U', R', i', hu, hr⟩ := key _ g hwork i
+  exact ⟨U', R', Inv.rebuild fuel i', hu, hr⟩
+
 /-! ### non-vacuity: a concrete run -/
 
 /-- `A`, `B` nullary, `F` unary; insert `A`, `B`, `F(A)`, `F(B)`, union `A` `B`, rebuild. -/
